@@ -129,9 +129,11 @@ class Report:
         """a violation in code that uses an idiom the rules were not
         confirmed against (sa/idioms.py) is undecided, not asserted"""
         from . import idioms
+        known = {f['key'] for f in load_known().get('findings', [])
+                 if f.get('property') == self.prop}
         for o in self.obls:
-            if o.status != VIOLATED:
-                continue
+            if o.status != VIOLATED or o.key in known:
+                continue           # (a recorded finding stays what it is)
             why = idioms.unconfirmed(program, o.rule, o.where, o.loc)
             if why:
                 o.status = UNKNOWN
